@@ -78,6 +78,7 @@ class PathNode:
         filename: str = None,
         path: str = None,
         length: int = None,
+        pad: bool = False,
     ):
         """
         Hold file information that contributes to the contents of torrent.
@@ -96,7 +97,10 @@ class PathNode:
             parent path, by default None
         length : int, optional
             size, by default None
+        pad : bool, optional
+            True for a padding file (BEP 47), which stands for zero bytes
         """
+        self.pad = pad
         self.path = path
         self.start = start
         self.stop = stop
@@ -193,6 +197,11 @@ class PieceNode:
             piece_hash = sha1(data).digest()  # nosec
             return piece_hash == self.piece
         pathnode = paths[0]
+        if pathnode.pad:
+            # padding files are never stored on disk, they are all zeros
+            stop = pathnode.length if pathnode.stop == -1 else pathnode.stop
+            partial = bytes(stop - pathnode.start)
+            return self._find_matches(filemap, paths[1:], data + partial)
         filename = pathnode.filename
         if filename not in filemap:
             return False  # pragma: nocover
@@ -293,9 +302,11 @@ class Metadata(CbMixin, ProgMixin):
                     "filename": path[-1],
                     "full": full,
                     "length": f["length"],
+                    "pad": f.get("attr") == "p",
                 })
                 self.length += f["length"]
-                self.filenames.add(path[-1])
+                if f.get("attr") != "p":
+                    self.filenames.add(path[-1])
 
     def _map_pieces(self):
         """
@@ -398,6 +409,8 @@ class Metadata(CbMixin, ProgMixin):
                 continue
             if piece_node.find_matches(filemap, dest):
                 for pathnode in paths:
+                    if pathnode.pad:
+                        continue
                     if pathnode.full not in copied:
                         copied.append(pathnode.full)
                         dest_path = safe_join(dest, pathnode.full)
